@@ -1,6 +1,7 @@
+import Gv.Oracle.Det
 import Gv.Oracle.Seq
 import Gv.Oracle.Loop
 /-! oracle of property C05: only the handlers it needs -/
 open Gv Gv.Oracle
 
-def main : IO Unit := runOracle [SeqOps.handle]
+def main : IO Unit := runOracle [SeqOps.handle, DetOps.handle]
